@@ -202,7 +202,7 @@ pub fn run_scenario(sc: &Scenario) -> Judged {
     j
 }
 
-fn gen_game_lines(rng: &mut Rng, clocked: bool, out: &mut Vec<String>, forced: &mut Vec<(u64, u64)>, search_ordinal: &mut u64) {
+fn gen_game_lines(rng: &mut Rng, clocked: bool, out: &mut Vec<String>, forced: &mut Vec<(u64, u64)>, search_ordinal: &mut u64) -> (String, Vec<RMove>, Pos) {
     let (root, start) = match rng.below(3) {
         0 => ("startpos".to_string(), Pos::startpos()),
         1 => {
@@ -239,21 +239,24 @@ fn gen_game_lines(rng: &mut Rng, clocked: bool, out: &mut Vec<String>, forced: &
         }
         *search_ordinal += 1;
     }
+    let last = ps.last().unwrap().clone();
+    (root, ms, last)
 }
 
-pub fn generate(seed: u64) -> Scenario {
+pub fn generate(seed: u64, big: bool) -> Scenario {
     let mut rng = Rng::new(seed);
     let mut prefix = vec![];
     let mut suffix = vec![];
     let mut forced = vec![];
     let mut ord = 0u64;
+    let mut last_game: Option<(String, Vec<RMove>, Pos)> = None;
     if rng.chance(3, 4) {
         let games = rng.range(1, 3);
         for g in 0..games {
             if g > 0 && rng.chance(1, 2) {
                 prefix.push("ucinewgame".to_string());
             }
-            gen_game_lines(&mut rng, true, &mut prefix, &mut forced, &mut ord);
+            last_game = Some(gen_game_lines(&mut rng, true, &mut prefix, &mut forced, &mut ord));
         }
         if rng.chance(1, 4) {
             prefix.push("isready".into());
@@ -261,13 +264,46 @@ pub fn generate(seed: u64) -> Scenario {
     }
     let mut dummy = vec![];
     let mut o2 = 0;
+    if big {
+        // one large search (hundreds of thousands of nodes): a dependence on the key draw
+        // that needs many probes of some table to show (a false hit with probability 2^-16)
+        let plies = rng.usize_below(10);
+        let (ms, ps) = gen::playout(&mut rng, &Pos::startpos(), plies, 0);
+        let mut l = "position startpos".to_string();
+        if !ms.is_empty() {
+            l.push_str(" moves ");
+            l.push_str(&gen::moves_uci(&ms).join(" "));
+        }
+        let _ = ps;
+        suffix.push(l);
+        suffix.push(format!("go depth {}", if plies <= 4 { 6 } else { 5 }));
+        return Scenario { prefix, suffix, key_seeds: vec![rng.next_u64(), rng.next_u64(), rng.next_u64()], forced, real_binary: false };
+    }
+    if let (Some((root, ms, last)), true) = (&last_game, rng.chance(1, 3)) {
+        // the game of the prefix goes on after ucinewgame (a GUI that restarts its engine in
+        // mid-game): same start, same moves, possibly a few more
+        let ext = rng.usize_below(4);
+        let (more, ps) = gen::playout(&mut rng, last, ext, 1);
+        let mut all = gen::moves_uci(ms);
+        all.extend(gen::moves_uci(&more));
+        let mut l = format!("position {}", root);
+        if !all.is_empty() {
+            l.push_str(" moves ");
+            l.push_str(&all.join(" "));
+        }
+        if !ps.last().unwrap().legal_moves().is_empty() {
+            suffix.push(l);
+            let maxd = if ps.last().unwrap().piece_count() <= 7 { 4 } else { 3 };
+            suffix.push(format!("go depth {}", rng.range(1, maxd)));
+        }
+    }
     if rng.chance(1, 6) {
         // a go without a position command: both processes must search the start position
         suffix.push(format!("go depth {}", rng.range(1, 3)));
     }
-    let games = rng.range(1, 2);
+    let games = rng.range(if suffix.is_empty() { 1 } else { 0 }, 2);
     for g in 0..games {
-        if g > 0 && rng.chance(1, 2) {
+        if (g > 0 || !suffix.is_empty()) && rng.chance(1, 2) {
             suffix.push("ucinewgame".to_string());
         }
         gen_game_lines(&mut rng, false, &mut suffix, &mut dummy, &mut o2);
@@ -374,7 +410,9 @@ pub fn run(ctx: &Ctx) -> i32 {
     let real_bin = realbin::real_binary_path();
     let rep = run_batch(sims, ctx.workers, |i| {
         let seed = derive(ctx.seed, "C13", i);
-        let sc = generate(seed);
+        // one sim in forty searches deep (the prefix games stay small)
+        let big = i % 40 == 7;
+        let sc = generate(seed, big);
         let j = run_scenario(&sc);
         let mut res = SimResult::default();
         res.evaluations = j.evaluations;
@@ -383,6 +421,14 @@ pub fn run(ctx: &Ctx) -> i32 {
         res.log_hash = j.log_hash;
         res.faults.add("key_redraw", sc.key_seeds.len() as u64 + 1);
         res.faults.add("restart_ucinewgame", (!sc.prefix.is_empty()) as u64);
+        if big {
+            res.probes.add("large_search_scenarios", 1);
+        }
+        if let (Some(p), Some(q)) = (sc.prefix.iter().rev().find(|l| l.starts_with("position")), sc.suffix.iter().find(|l| l.starts_with("position"))) {
+            if q.starts_with(p.as_str()) {
+                res.probes.add("suffix_continues_the_game_of_the_prefix", 1);
+            }
+        }
         res.faults.add("deadline_expired_mid_search", sc.forced.len() as u64);
         res.violations = violations_of(&sc, &j, i, seed);
         if i < 3 {
@@ -392,7 +438,7 @@ pub fn run(ctx: &Ctx) -> i32 {
     });
     let ev = Evidence {
         level: "exploration",
-        rule: "One case = one script pair: an adversarial prefix (0-3 games, clock-limited searches interrupted at seeded reads, depth-limited searches, with/without ucinewgame) and a depth-limited suffix (1-2 games, depth 1..4, sometimes a go before any position command). Runs: prefix+ucinewgame+suffix under three key seeds (transcripts of info/bestmove lines minus time/nps must be identical; the whole transcript when the prefix has no clocked go, else the part after ucinewgame), and the suffix alone in a fresh process (must equal the part after ucinewgame). One case in eight is also run twice on the real binary (two real key draws) and compared with the simulation. Evaluations = simulated processes; all cases are non-trivial (each contains at least one search).".into(),
+        rule: "One case = one script pair: an adversarial prefix (0-3 games, clock-limited searches interrupted at seeded reads, depth-limited searches, with/without ucinewgame) and a depth-limited suffix (1-2 games, depth 1..4, sometimes a go before any position command, in one case of four the game of the prefix continued after ucinewgame with the same start and move list; one case in forty is a single depth 5-6 search of several hundred thousand nodes). Runs: prefix+ucinewgame+suffix under three key seeds (transcripts of info/bestmove lines minus time/nps must be identical; the whole transcript when the prefix has no clocked go, else the part after ucinewgame), and the suffix alone in a fresh process (must equal the part after ucinewgame). One case in eight is also run twice on the real binary (two real key draws) and compared with the simulation. Evaluations = simulated processes; all cases are non-trivial (each contains at least one search).".into(),
         extra: {
             let mut m = serde_json::Map::new();
             m.insert("real_binary_available".into(), json!(real_bin.is_some()));
